@@ -259,7 +259,21 @@ def lazy_parallel_map(
         try:
             # First fill the buffer
             # If buffer full, take one element and push one new inside
-            for ele in generator:
+            generator = iter(generator)
+            while True:
+                try:
+                    ele = next(generator)
+                except StopIteration:
+                    break
+                except (KeyboardInterrupt, SystemExit):
+                    raise
+                except BaseException:
+                    # The input failed. The results that are already
+                    # submitted belong to earlier examples: deliver them
+                    # first, then raise.
+                    while not q.empty():
+                        yield result(q.get())
+                    raise
                 if q.qsize() >= buffer_size:
                     yield result(q.get())
                 q.put(submit(executor, function, ele, *args, **kwargs))
